@@ -67,7 +67,7 @@ def parseEvent (toks : List String) : Option Event :=
   | "release" :: i :: "req" :: r =>
     match i.toNat?, nats r with | some i, some [t, c] => some (.release i (.voteReq t c 0 0)) | _, _ => none
   | "release" :: i :: "grant" :: r =>
-    match i.toNat?, nats r with | some i, some [t, v, c] => some (.release i (.grant t v c)) | _, _ => none
+    match i.toNat?, nats r with | some i, some [t, v, c] => some (.release i (.grant t v c {})) | _, _ => none
   | "release" :: i :: "ack" :: r =>
     match i.toNat?, nats r with | some i, some [t, f, idx] => some (.release i (.ack t f idx [])) | _, _ => none
   | "crash" :: r => match nats r with | some [i] => some (.crash i) | _ => none
@@ -84,6 +84,7 @@ def parseEvent (toks : List String) : Option Event :=
     match i.toNat?, takeApp r with | some i, some (m, []) => some (.sendApp i m) | _, _ => none
   | "recvapp" :: i :: r =>
     match i.toNat?, takeApp r with | some i, some (m, []) => some (.recvApp i m) | _, _ => none
+  | "ackself" :: r => match nats r with | some [i, idx] => some (.ackSelf i idx) | _ => none
   | "ackcommitted" :: r => match nats r with | some [i] => some (.ackCommitted i) | _ => none
   | "commitleader" :: i :: c :: r =>
     match i.toNat?, c.toNat?, takePCfg r with
